@@ -1,7 +1,5 @@
 //go:build !verif
 
-package tree
-
-func verifDraw(site string, n int, v int) {}
+package support
 
 func verifGate(site string, worker int, item int) {}
